@@ -68,7 +68,44 @@ FIELDS:
 # GEN_C: field names that collide once turned into grammar rule names (case-only differences, '-' vs '_', names equal to the
 # compiler's own structural rules) -- whatever disambiguates them must not depend on what the process compiled before
 
-SCHEMA_NAMES = ["META", "SKILL", "TEST_HOLOGRAPHIC", "DEBATE_TRANSCRIPT", "GEN_A", "GEN_B", "GEN_C", "NOPE"]
+# GEN_D / GEN_E: near-twin SCHEMAS.  Both route the same fields to the same custom targets; D declares them (POLICY.TARGETS,
+# DEFAULT_TARGET), E does not -- so E's answer is "unknown target".  Anything one schema's validation registers, declares or
+# learns and that outlives the call shows up as a different answer for its twin later in the same process.
+GEN_SCHEMAS["gen_d.oct.md"] = '''===GEN_D===
+META:
+  TYPE::SCHEMA
+  VERSION::"1.0"
+POLICY:
+  VERSION::"1.0"
+  UNKNOWN_FIELDS::WARN
+  TARGETS::[§INDEXER, §AUDIT_TRAIL, §LEDGER]
+  DEFAULT_TARGET::§VAULT
+FIELDS:
+  ENTRY::["opening balance"∧REQ→§AUDIT_TRAIL]
+  NOTE::["n"∧OPT→§LEDGER]
+  SAFE::["s"∧OPT→§VAULT]
+  ODD::["o"∧OPT→§NOPE_T]
+  PLAIN::["p"∧OPT]
+===END===
+'''
+GEN_SCHEMAS["gen_e.oct.md"] = '''===GEN_E===
+META:
+  TYPE::SCHEMA
+  VERSION::"1.0"
+POLICY:
+  VERSION::"1.0"
+  UNKNOWN_FIELDS::WARN
+  TARGETS::[§INDEXER]
+FIELDS:
+  ENTRY::["opening balance"∧REQ→§AUDIT_TRAIL]
+  NOTE::["n"∧OPT→§LEDGER]
+  SAFE::["s"∧OPT→§VAULT]
+  ODD::["o"∧OPT→§NOPE_T]
+  PLAIN::["p"∧OPT]
+===END===
+'''
+
+SCHEMA_NAMES = ["META", "SKILL", "TEST_HOLOGRAPHIC", "DEBATE_TRANSCRIPT", "GEN_A", "GEN_B", "GEN_C", "GEN_D", "GEN_E", "NOPE"]
 PACKAGED_ONLY = {"META", "SKILL", "TEST_HOLOGRAPHIC", "DEBATE_TRANSCRIPT", "NOPE"}
 
 
@@ -116,6 +153,10 @@ def doc_reporting(t: Tape, marker: str) -> str:
     if t.choose(2, "rep.genc"):
         lines += ["GEN_C" + t.pick(BT, "rep.btC") + ":", "  CONTENT::" + t.pick(["c", '"two words"'], "rep.cc"), "  STATUS::" + t.pick(["ACTIVE", "active", "A", "DONE"], "rep.cs"),
                   "  Status::on", "  A_B::1"]
+    if t.choose(2, "rep.gende"):
+        for nm_ in ("GEN_D", "GEN_E"):
+            lines += [nm_ + t.pick(BT + ["[→§AUDIT_TRAIL]", "[→§VAULT]"], "rep.btDE") + ":", '  ENTRY::"42 EUR"', "  NOTE::" + t.pick(ATOMS, "rep.dn"), "  SAFE::1",
+                      "  ODD::" + t.pick(ATOMS, "rep.do"), "  PLAIN::p"]
     if t.choose(3, "rep.lit") == 0:
         # literal zone with characters that have several Unicode spellings (composed/decomposed, ligature, full-width)
         lines += ["CODE::", "  ```python", "  print('x  y')", "  if x: pass", "  s = 'caf\u00e9 \u00f1 \u212b \ufb01 \uff21'", "  ```"]
@@ -295,6 +336,14 @@ def order_battery() -> list:
         add("tool.validate", rep, schema, args={})
         add("tool.validate", rep, schema, args={"fix": True, "profile": "LENIENT"})
     add("py.validate", rep, "GEN_A")
+    # twin schemas: the same document under the schema that declares the custom targets and under the one that does not; and a
+    # document that names one of those targets itself at block level
+    rep2 = ('===DOC===\nMETA:\n  TYPE::TEST\n  VERSION::"1.0"\nGEN_D:\n  ENTRY::"42 EUR"\n  NOTE::n1\n  SAFE::1\n  ODD::o\n  PLAIN::p\n'
+            'GEN_E:\n  ENTRY::"42 EUR"\n  NOTE::n1\n  SAFE::1\n  ODD::o\n  PLAIN::p\n===END===\n')
+    add("tool.validate", rep2, "GEN_D", args={})
+    add("tool.validate", rep2, "GEN_E", args={})
+    add("py.validate", rep2.replace("GEN_E:", "GEN_E[→§NOPE_T]:"), "GEN_D")
+    add("py.validate", rep2.replace("GEN_D:", "GEN_D[→§NOPE_T]:"), "GEN_E")
     add("tool.eject", rep, "GEN_A", args={"mode": "executive", "format": "json"})
     add("tool.eject", rep, "GEN_B", args={"mode": "developer", "format": "markdown"})
     sectioned = ('===DOC===\nMETA:\n  TYPE::TEST\n  VERSION::"1.0"\n' + "".join(f"§{nm}::S{i}\n  V{i}::{i}\n" for i, nm in enumerate(
@@ -357,7 +406,7 @@ def gen_call(t: Tape, idx: int, corpus: list, heavy: bool = False) -> dict:
     else:
         text = t.pick(["", "\n\n", "plain prose without structure", "===X===\n" + "[" * 40, "A::" + "[" * 300 + "]" * 300,
                        "===DOC===\nA::😀\nB::‮ rtl\n===END===\n", "K::1\n" * 400], "call.garbage")
-    schema = t.weighted([("META", 3), ("GEN_A", 5), ("GEN_B", 3), ("GEN_C", 3), ("SKILL", 1), ("TEST_HOLOGRAPHIC", 1), ("DEBATE_TRANSCRIPT", 1),
+    schema = t.weighted([("META", 3), ("GEN_A", 5), ("GEN_B", 3), ("GEN_C", 3), ("GEN_D", 2), ("GEN_E", 2), ("SKILL", 1), ("TEST_HOLOGRAPHIC", 1), ("DEBATE_TRANSCRIPT", 1),
                          ("NOPE", 1)], "call.schema")
     api = t.weighted([("tool.validate", 8), ("tool.write", 5), ("tool.eject", 3), ("tool.compile_grammar", 2), ("tool.validate_file", 1),
                       ("py.tokenize", 1), ("py.parse", 1), ("py.parse_with_warnings", 1), ("py.emit", 2), ("py.validate", 2),
